@@ -585,9 +585,15 @@ Obs(S, r) == [r |-> r, cb |-> S.log, now |-> S.now, ep |-> [e \in Eps |-> EpObs(
 (* actions *)
 Has(a) == a \in Acts
 DirSets == {{"R"}, {"W"}, {"R", "W"}}
+(* which known-finding triggers a history has met (bit mask, shipped with the history for the check's bookkeeping) *)
+KfMask(dv) == (IF "pair_rt_rearm" \in dv THEN 1 ELSE 0) + (IF "pair_wt_endpoint" \in dv THEN 2 ELSE 0)
+              + (IF "pair_eof_before_data" \in dv THEN 4 ELSE 0) + (IF "sock_cb_before_connected" \in dv THEN 8 ELSE 0)
+              + (IF "sock_stale_io_timeout" \in dv THEN 16 ELSE 0)
+              + (IF dv \ {"pair_rt_rearm", "pair_wt_endpoint", "pair_eof_before_data", "sock_cb_before_connected",
+                          "sock_stale_io_timeout"} # {} THEN 32 ELSE 0)
 Step(S1, op, r) ==
   /\ st' = S1
-  /\ hist' = Append(hist, op @@ [o |-> Obs(S1, r), kf |-> Cardinality(S1.dv)])
+  /\ hist' = Append(hist, op @@ [o |-> Obs(S1, r), kf |-> KfMask(S1.dv)])
 
 Quiet(S) == \A x \in Bases : S.aq[x] = <<>>
 IoReady(S) == Kind = "sock" /\ \E e \in {1, 2} : S.b[e].alive /\
